@@ -5,6 +5,7 @@ pub mod bp;
 pub mod bprun;
 pub mod envmodel;
 pub mod fsutil;
+pub mod histworker;
 pub mod layermodel;
 pub mod props;
 pub mod trrun;
